@@ -186,6 +186,60 @@ func c20Scenario(c *Ctx, name string, oneZone bool, T int, payloadLen int, prolo
 	}
 }
 
+// c20NoHealthyServer: the real proxy in front of an upstream none of whose servers is reachable: concurrent
+// requests all get their own 5xx answer (the error path shares package-level values between requests).
+func c20NoHealthyServer(c *Ctx, name string, b vsched.Bounds) Sched {
+	cfg := &config.PikeConfig{
+		Caches:    []config.CacheConfig{{Name: "c1", Size: 100, HitForPass: "5m"}},
+		Upstreams: []config.UpstreamConfig{{Name: "u", Servers: []config.UpstreamServerConfig{{Addr: "http://127.0.0.1:1"}}}},
+		Locations: []config.LocationConfig{{Name: "l", Upstream: "u"}},
+		Servers:   []config.ServerConfig{{Addr: "127.0.0.1:0", Locations: []string{"l"}, Cache: "c1"}},
+	}
+	var e *env.Env
+	return Sched{
+		Name:   name,
+		Bounds: b,
+		Setup: func() ([]func(), func(*vsched.Exec) *vsched.Violation, func() string) {
+			if e == nil {
+				env.Silence()
+				env.FreshAll()
+				procEnv = nil
+				if err := env.Apply(cfg); err != nil {
+					panic(err)
+				}
+				e = &env.Env{Cfg: cfg}
+				e.RebindServersOnly()
+			}
+			freshCaches(cfg)
+			vtime.Set(vtime.Base)
+			vsched.ClockStart = vtime.Base
+			e.Events()
+			res := make([]*env.Result, 3)
+			bodies := []func(){
+				func() { res[0] = e.Do(env.Req{URI: "/a", Rid: "t0"}) },
+				func() { res[1] = e.Do(env.Req{Method: "POST", URI: "/b", Rid: "t1"}) },
+				func() { res[2] = e.Do(env.Req{URI: "/a", Rid: "t2"}) },
+			}
+			check := func(x *vsched.Exec) *vsched.Violation {
+				e.Events()
+				if x.Deadlock || x.Livelock || len(x.Panics) > 0 {
+					return nil
+				}
+				for i, r := range res {
+					if r == nil || r.Panic != "" {
+						return &vsched.Violation{Sig: "panic-without-healthy-server", Msg: fmt.Sprintf("request %d: %v", i, r)}
+					}
+					if r.Status < 500 {
+						return &vsched.Violation{Sig: "no-healthy-server-but-not-5xx", Msg: fmt.Sprintf("request %d answered %d %s", i, r.Status, trunc(r.Body))}
+					}
+				}
+				return nil
+			}
+			return bodies, check, func() string { return fmt.Sprint(res[0].Status, res[1].Status, res[2].Status) }
+		},
+	}
+}
+
 func init() {
 	Register("C20", func(c *Ctx) {
 		c.Out.Rule = "race-detector-instrumented build explored by the controlled scheduler (hand-offs invisible to the detector): every bounded schedule of {fetcher, waiter, late request + expiry}, {hits with different Accept-Encoding / conditional headers}, {hit, purge, refetch}, {requests during a reload of compress/cache/location/server registries}; oracle: zero race reports with a pike frame, every response decodes to the origin's body for its own key, published cache responses unchanged (deep hash), no panic/deadlock"
@@ -231,6 +285,8 @@ func init() {
 		}, nil, vsched.Bounds{Preempt: pre, Tick: 0, Data: -1, Total: -1}))
 		// the whole of main.update() — including the upstream registry, which the scenarios above leave out because the
 		// scripted origin lives there — racing two requests, over a real loopback origin (the scenario of C16, here in the race build)
+		c.RunSched(c20NoHealthyServer(c, "no-healthy-server-3-requests", vsched.Bounds{Preempt: pre, Tick: 0, Data: -1, Total: -1}))
+		procEnv = nil
 		c.RunSched(c16Conc(c, "full-update-vs-requests", vsched.Bounds{Preempt: pre, Tick: 0, Data: -1, Total: -1}))
 		procEnv = nil
 	})
